@@ -14,14 +14,14 @@ func init() {
 	register(&Profile{
 		Name:     "C20",
 		Property: "C20",
-		Gen:      genC20,
+		Gen:      func(g *Gen) *Plan { return swarm(g, genC20(g), 0.25, 0.3) },
 		Oracles: []func(o *Outcome) []Violation{respOracle("C20"), servedOracleStrict("C20"), oracleImmutable, livenessOracle("C20"),
 			// purges racing requests and reloads still do their job (shared key / registry state intact)
 			relabelOnly("C20", oracleC18, "served-purged-entry")},
 		NonTrivial: func(o *Outcome) bool {
 			return o.Hist.Probes["hits-checked"] > 0 && (o.Hist.Probes["reloads"] > 0 || o.Hist.Probes["purges"] > 0)
 		},
-		Rule:         "seeded mixed traffic on hot and cold keys with lifetimes of 1-2s: GET / HEAD / POST with varying Accept-Encoding and conditional headers, named purges and repeated reloads of behaviourally equivalent configurations (toggling added response headers of an unused location, compress levels, an extra cache), bursts of 3-8 concurrent requests, the cache persisted in a quarter of the plans; the same schedules are executed (a) by the normal build with the response-integrity, served-or-explained and immutability oracles armed and (b) by a -race build in which the scheduler's own synchronisation is hidden from the detector (RaceDisable around harness hand-offs, one-directional controller->task edges), so that two accesses by different tasks which pike itself does not order are reported although execution is serialised; a race report counts only if the innermost non-runtime frames of both accesses lie outside the harness. non-trivial = at least one cache hit was checked and a reload or purge ran; distinct = distinct history hash",
+		Rule:         "seeded mixed traffic on hot and cold keys with lifetimes of 1-2s: GET / HEAD / POST with varying Accept-Encoding and conditional headers, named purges and repeated reloads of behaviourally equivalent configurations (toggling added response headers of an unused location, compress levels, an extra cache), bursts of 3-8 concurrent requests, the cache persisted in a quarter of the plans; the same schedules are executed (a) by the normal build with the response-integrity, served-or-explained and immutability oracles armed and (b) by a -race build in which the scheduler's own synchronisation is hidden from the detector (RaceDisable around harness hand-offs, one-directional controller->task edges), so that two accesses by different tasks which pike itself does not order are reported although execution is serialised; a race report counts only if the innermost non-runtime frames of both accesses lie outside the harness. in a quarter of the plans a tenth of the clients disconnect at a scheduler-chosen step (fault client-disconnect); persisted plans may also meet a store that fails, forgets or dawdles. non-trivial = at least one cache hit was checked and a reload or purge ran; distinct = distinct history hash",
 		ExpectProbes: []string{"hits-checked", "reloads", "purges", "same-entry-served-twice", "path:waiter", "request-during-reload"},
 	})
 }
